@@ -6,9 +6,10 @@ import Mfi.Driver.BankD
 import Mfi.Driver.TokenD
 import Mfi.Driver.GateD
 import Mfi.Driver.AuthD
+import Mfi.Driver.AdminD
 open Mfi.Driver
 
-def handlers : List (String → List Int → Option String) := [fxOp, panicOp, irOp, igOp, bankOp, tokOp, gateOp, authOp]
+def handlers : List (String → List Int → Option String) := [fxOp, panicOp, irOp, igOp, bankOp, tokOp, gateOp, authOp, adminOp]
 
 def stepLine (line : String) : String :=
   match line.trimAscii.toString.splitOn " " with
